@@ -179,8 +179,15 @@ FILE_skip(struct archive *a, void *client_data, int64_t request)
 #else
 			new_offset = fseek(mine->f, skip, SEEK_CUR);
 #endif
+#ifdef __ANDROID__
 			if (new_offset >= 0)
 				return (new_offset - old_offset);
+#else
+			/* fseek() and its variants return zero on success,
+			 * not the new offset. */
+			if (new_offset == 0)
+				return (skip);
+#endif
 		}
 	}
 
